@@ -933,6 +933,11 @@ def c08(run):
     if not rn.violated:
         raise Infra("negative model SymHeap_today holds")
     run.notes.append("negative model (SymbolTable.Clone copies the slice header): TLC reports %s violated" % rn.violated)
+    rb = core.tlc(run.work, "SymHeap", "SymHeap_neg_blocklist", expect_violation=True)
+    run.add_tlc(rb, "negative model: Append extends the parent's block list in place")
+    if not rb.violated:
+        raise Infra("negative model SymHeap_neg_blocklist holds")
+    run.notes.append("negative model (block list appended in place): TLC reports %s violated" % rb.violated)
     import random
     rs = core.tlc(run.work, "SymHeap", "SymHeap_sim", workers=4, simulate=150 if run.tier == "quick" else 1500, depth=18, seed=run.seed, timeout=600)
     run.add_tlc(rs, "L2 simulated behaviours (export)")
